@@ -151,6 +151,28 @@ Fixpoint mexpand_all (tbl : list (qkey * par)) (l : list mcact) : option (list m
       end
   end.
 
+(* the compact actions of a history with the metrics reads taken out (what
+   [strip] is on expanded actions; ScrapeProofs.mexpand_all_strip) *)
+Fixpoint cstrip (l : list mcact) : list cact :=
+  match l with
+  | [] => []
+  | MC a :: t => a :: cstrip t
+  | MCScrape _ :: t => cstrip t
+  end.
+
+(* the verdicts the model gives for the requests of a case, read off a final state *)
+Definition cverdicts (tbl : list (qkey * par)) (sf : pst) (results : list cres)
+  : list (option (verdict * Z)) :=
+  map (fun r : cres =>
+         match fst (fst r) with
+         | None => pverdict sf None (snd (fst r))
+         | Some rem =>
+             match nth_error tbl rem with
+             | Some (key, _) => pverdict sf (Some key) (snd (fst r))
+             | None => Some (VOther, -2)
+             end
+         end) results.
+
 (* (tbl, actions, after each action of Plugin.v: total Counts() of all
     constructed queues / at each metrics read: sum of the values the gauge
     callback reported, per request: remedy, id, action returned by OnRequest and
